@@ -293,8 +293,13 @@ def h_submit(shapes=("chain3",), bss=(1, 2), maxns=(None, 1), tas=(True,), time_
             else:
                 ex.check(len(js_) <= bs, "C07: more jobs than per-node batch size", size=len(js_), bs=bs)
             if s["run_cmd"]:
-                ex.check(("--num-parallel-processes-per-node=%s" % np_ in s["run_cmd"]) == (np_ is not None),
-                         "C07: run script does not carry the group's processes-per-node option")
+                try:  # parsed back by the real run-jobs command (option spelling is JADE's choice)
+                    from jade.cli.run_jobs import run_jobs as _rj
+
+                    got_np = _rj.make_context("run-jobs", list(s["run_cmd"][2:])).params.get("num_parallel_processes_per_node")
+                except Exception as e_:
+                    got_np = "unparsable: %s" % e_
+                ex.check(got_np == np_, "C07: run script does not carry the group's processes-per-node option", got=got_np, want=np_)
             cfgd = json.load(open(s["config_file"])) if s["config_file"] and os.path.exists(s["config_file"]) else {"jobs": []}
             bn = {j["name"] for j in cfgd["jobs"]}
             for j in cfgd["jobs"]:
